@@ -5,8 +5,14 @@ Property theorems only; the model is `Model/Cli.lean` (`taskPlan`, `runParallel`
 lemmas are in `Proofs/CliPlanSpike.lean` and `Proofs/CliPlan.lean`.
 All statements hold for every number of inputs `I ≥ 1`, nodes `N`, cores `C`, trials `T`
 with `I ≤ N*C` (no size bound).
+
+Second part (end of the file): what a task does with its `n_runs` — the body `run_file`
+(`Model/RunFile.lean` = `Model/Spec.lean` expansion ∘ `Model/Batch.lean` protocol; helper lemmas
+in `Proofs/RunFile.lean`) — and the composition plan → run.
 -/
 import PanqecVerif.Proofs.CliPlan
+import PanqecVerif.Proofs.RunFile
+import PanqecVerif.Model.Sim
 
 namespace Panqec.C14
 
@@ -121,5 +127,131 @@ example : (allTasks 3 2 4 17).map (fun t => (t.input, t.nRuns)) =
 example : (taskPlan 3 2 6 17 2 3).resultFile = "results_10.json.gz".toList := by decide
 example : (taskPlan 3 2 6 17 1 3).resultFile = "results_04.json.gz".toList := by decide
 example : runParallel 5 2 2 8 17 1 = .error .zeroDivision := by rfl
+
+/-! ## the task body `run_file`, and plan → run -/
+
+open Panqec.RunFile Panqec.Batch in
+/-- **`run_file` completes the requested trials.**  Let the input file expand (`read_input_dict`)
+    to the batch `b` of direct simulations, at least one, pairwise different (`idents` numbers
+    them by their recorded inputs), and let the results file be in any admissible state before
+    the task (`UniformFile`): absent (`k = 0`), or a complete well-formed document holding a
+    record with `k` trials for every expanded simulation and nothing else — the state a
+    `run_file(…, k)` call leaves.  Then, for every `n_trials = n`, output format and trial
+    counter, `run_file` raises nothing and returns with the batch of the specification (label,
+    method, simulations); the run has ended (`done`) within the model's step bound; the
+    results file is absent or a complete document; for **every expanded simulation** it holds
+    (`Holds`) a record carrying that simulation's identity with exactly `max k n` trials and
+    three result lists of exactly that length (no file at all only when `max k n = 0`); it has
+    records of expanded simulations only, each simulation once. -/
+theorem run_file_completes_requested_trials (spec : Spec.Spec) (b : Spec.Batch) (fmt : Fmt)
+    (pre : FileSt) (next0 k n : Nat)
+    (hread : Spec.readInputDict spec = .ok b)
+    (hdirect : b.sims.any (·.splitting) = false)
+    (hne : idents b.sims ≠ []) (hnd : (idents b.sims).Nodup)
+    (hpre : UniformFile pre (idents b.sims) k next0) :
+    ∃ res, runFile spec fmt pre next0 n = .ok res ∧
+      res.label = b.label ∧ res.method = b.method ∧ res.sims = b.sims ∧
+      res.ids = idents b.sims ∧ res.final.proc.pc = .done ∧
+      (res.final.disk.file = .absent ∨ ∃ d, res.final.disk.file = .complete d) ∧
+      (∀ x ∈ idents b.sims, Holds res.final.disk.file x (max k n) ∧
+        trialsRecorded res.final.disk.file x = max k n) ∧
+      (∀ r ∈ docOf res.final.disk.file, r.inputs ∈ idents b.sims) ∧
+      ((docOf res.final.disk.file).map (·.inputs)).Nodup := by
+  obtain ⟨hdone, hfile, hholds, hsub, hnodup⟩ :=
+    runBatch_uniform fmt pre next0 (idents b.sims) k n hne hnd hpre
+  have heq : runFile spec fmt pre next0 n = .ok ⟨b.label, b.method, b.sims, idents b.sims,
+      firstTrialOf (startProc (initWorld fmt pre next0) (idents b.sims) n saveFrequency).proc.pc,
+      runBatch fmt pre next0 (idents b.sims) n⟩ := by
+    unfold runFile
+    simp only [hread, hdirect, Bool.false_eq_true, if_false, hdone]
+  exact ⟨_, heq, rfl, rfl, rfl, rfl, hdone, hfile,
+    fun x hx => ⟨hholds x hx, trialsRecorded_of_holds (hholds x hx)⟩, hsub, hnodup⟩
+
+open Panqec.RunFile Panqec.Batch in
+/-- the same for a task that starts without a results file (every task of `run_parallel`
+    after `--delete-existing`, or in a fresh data directory): each simulation ends with exactly
+    `n` trials -/
+theorem run_file_from_scratch (fmt : Fmt) (ids : List Nat) (n x : Nat)
+    (hne : ids ≠ []) (hnd : ids.Nodup) (hx : x ∈ ids) :
+    trialsRecorded (runBatch fmt .absent 0 ids n).disk.file x = n := by
+  have := (runBatch_uniform fmt .absent 0 ids 0 n hne hnd (Or.inl ⟨rfl, rfl⟩)).2.2.1 x hx
+  rw [Nat.zero_max] at this
+  exact trialsRecorded_of_holds this
+
+open Panqec.RunFile Panqec.Batch in
+/-- **Plan, then run: the trials arrive.**  `I ≥ 1` input files on `N` nodes × `C` cores with
+    `I ≤ N·C`; every task of the plan of `run_parallel` executes `run_file` on its own results
+    file, starting without one.  Then for every input `j` and every simulation `x` of its
+    (non-empty, duplicate-free) expansion `ids`, the trials recorded for `x` in the result files
+    of the tasks of `j` — what `merge-results` and `Analysis` add up — sum to exactly the
+    requested `T`.  (Composition of `trials_conserved` with `run_file_from_scratch`.) -/
+theorem plan_then_run_conserves_trials (fmt : Fmt) (ids : List Nat) (I N C T j x : Nat)
+    (hI : 0 < I) (hle : I ≤ N * C) (hj : j < I)
+    (hne : ids ≠ []) (hnd : ids.Nodup) (hx : x ∈ ids) :
+    pipelineTrials fmt ids (allTasks I N C T) j x = T := by
+  unfold pipelineTrials
+  have : ((allTasks I N C T).filter (fun t => t.input == j)).map (fun t =>
+      trialsRecorded (runBatch fmt .absent 0 ids t.nRuns).disk.file x) =
+      ((allTasks I N C T).filter (fun t => t.input == j)).map (·.nRuns) :=
+    List.map_congr_left fun t _ => run_file_from_scratch fmt ids t.nRuns x hne hnd hx
+  rw [this]
+  exact trials_conserved I N C T j hI hle hj
+
+/-- the record of the protocol model advances like the trial bookkeeping of
+    `DirectSimulation._run` (`Model/Sim.lean`): one trial adds one to `n_runs` and one entry to
+    each of the three result lists -/
+theorem record_shape_is_the_trial_bookkeeping (cfg : Sim.Config) (u : Nat → Rat)
+    (s s' : Sim.State) (r : Batch.Sim) (id : Nat) (h : Sim.step cfg u s = .ok s')
+    (hr : r.nRuns = s.nRuns ∧ r.ee.length = s.effectiveError.length ∧
+      r.su.length = s.success.length ∧ r.cs.length = s.codespace.length) :
+    (r.runOne id).nRuns = s'.nRuns ∧ (r.runOne id).ee.length = s'.effectiveError.length ∧
+      (r.runOne id).su.length = s'.success.length ∧ (r.runOne id).cs.length = s'.codespace.length := by
+  unfold Sim.step at h
+  split at h
+  · cases h
+  · cases h
+    simp only [Batch.Sim.runOne, List.length_append, List.length_singleton]
+    omega
+
+/-! non-vacuity: three simulations, first 2 trials from scratch, then 5 on the file left behind;
+    a 2-node × 2-core plan on 3 inputs -/
+section
+open Panqec.RunFile Panqec.Batch
+
+example : (runBatch .gz .absent 0 [0, 1, 2] 2).disk.file =
+    .complete [⟨0, 2, [0, 3], [0, 3], [0, 3]⟩, ⟨1, 2, [1, 4], [1, 4], [1, 4]⟩,
+               ⟨2, 2, [2, 5], [2, 5], [2, 5]⟩] := by decide +kernel
+
+/-- the file a first task leaves is an admissible state for the next one -/
+example : UniformFile (.complete [⟨0, 2, [0, 3], [0, 3], [0, 3]⟩, ⟨1, 2, [1, 4], [1, 4], [1, 4]⟩,
+    ⟨2, 2, [2, 5], [2, 5], [2, 5]⟩]) [0, 1, 2] 2 6 :=
+  Or.inr ⟨_, rfl, ⟨by decide, by simp [Sim.WF], by decide⟩, by decide, by decide⟩
+
+example : shapeOf (runBatch .json (runBatch .json .absent 0 [0, 1, 2] 2).disk.file 6 [0, 1, 2] 5).disk.file =
+    [(0, 5, 5, 5, 5), (1, 5, 5, 5, 5), (2, 5, 5, 5, 5)] := by decide +kernel
+example : shapeOf (runBatch .json (runBatch .json .absent 0 [0, 1, 2] 2).disk.file 6 [0, 1, 2] 1).disk.file =
+    [(0, 2, 2, 2, 2), (1, 2, 2, 2, 2), (2, 2, 2, 2, 2)] := by decide +kernel
+example : pipelineTrials .gz [0, 1] (allTasks 3 2 2 7) 2 1 = 7 := by decide +kernel
+
+/-- an input file: two sizes of the toric code, one noise direction, matching decoder, one rate -/
+def demoSpec : Spec.Spec :=
+  ⟨some (.single ⟨some "demo", none,
+    some ⟨some "Toric2DCode", some (.list [.dict [("L_x", .int 2)], .dict [("L_x", .int 3), ("L_y", .int 2)]])⟩,
+    some ⟨some "PauliErrorModel", some (.dict [("r_x", .num (1/4)), ("r_y", .num (1/4)), ("r_z", .num (1/2))])⟩,
+    some ⟨some "MatchingDecoder", some (.dict [])⟩,
+    some (.list [.num (1/8)]), none⟩), none⟩
+
+/-- the hypotheses of `run_file_completes_requested_trials` hold on it: two direct
+    simulations with different recorded inputs -/
+example : ((Spec.readInputDict demoSpec).toOption.map fun b =>
+    (b.label, b.sims.length, idents b.sims, b.sims.any (·.splitting))) =
+    some ("demo", 2, [0, 1], false) := by decide +kernel
+
+/-- … and the whole of `run_file` on it: 3 trials from scratch, progress log `3/3` -/
+example : ((runFile demoSpec .gz .absent 0 3).toOption.map fun r => shapeOf r.final.disk.file) =
+    some [(0, 3, 3, 3, 3), (1, 3, 3, 3, 3)] := by decide +kernel
+example : ((runFile demoSpec .gz .absent 0 3).toOption.map fun r => (r.ids, r.log, r.progressRange)) =
+    some ([0, 1], some (3, 3), (0, 3)) := by decide +kernel
+end
 
 end Panqec.C14
